@@ -344,7 +344,7 @@ class Gateway:
             return "unknown"
         return "sleeping" if node.sleeping else "awake"
 
-    def set_value(self, nid, cid, vt, value, ack, raised):
+    def set_value(self, nid, cid, vt, value, ack, raised, mtype=T.SET):
         """Apply a controller set-value call given whether the real call raised.
 
         Returns Expect for what must have been emitted by the call itself.
@@ -360,7 +360,7 @@ class Gateway:
         if target == "sleeping":
             node.desired[(cid, int(vt))] = value
             return exp
-        exp.sent.append((nid, cid, T.SET, int(ack), int(vt), str(value)))
+        exp.sent.append((nid, cid, int(mtype), int(ack), int(vt), str(value)))
         return exp
 
     def must_accept_set_value(self, nid, cid, vt, value, ack=0):
